@@ -68,6 +68,10 @@ func H_C07_unknown(v *V) {
 	if policy == 1 {
 		opts |= IgnoreUnknown
 	}
+	if policy != 0 && v.Choice(2) == 1 {
+		// an ignored / handled unknown option is not a "first non-option"
+		opts |= PassAfterNonOption
+	}
 	p := NewNamedParser("prog", opts)
 	p.AddGroup("Application Options", "", &d)
 	p.SubcommandsOptional = true
@@ -98,6 +102,11 @@ func H_C07_unknown(v *V) {
 	}
 	argv = append(argv, U)
 	tail := []string{}
+	// a known option right after the unknown one: parsing continues, so it is parsed
+	knownAfter := policy != 0 && v.Choice(2) == 1
+	if knownAfter {
+		tail = append(tail, "--abc=q")
+	}
 	if v.Choice(2) == 1 {
 		tail = append(tail, "w")
 	}
@@ -135,19 +144,21 @@ func H_C07_unknown(v *V) {
 			v.Reach("ignored")
 			want := []string{U}
 			for _, t := range tail {
-				if t == "w" {
+				switch t {
+				case "w":
 					want = append(want, "w")
-				}
-			}
-			if len(tail) > 0 && tail[0] == "c" {
-				// the unknown token is a remaining argument, so a later `c` is an
-				// ordinary argument and --cd is unknown in the parser's context
-				want = []string{U, "c", "--cd"}
-				if tail[len(tail)-1] == "w" {
-					want = append(want, "w")
+				case "c", "--cd":
+					// the unknown token is a remaining argument, so a later `c` is an
+					// ordinary argument and --cd is unknown in the parser's context
+					want = append(want, t)
 				}
 			}
 			v.Assert(v.EqStrs(rest, want), "IgnoreUnknown: the token is passed through verbatim and parsing continues")
+			wantAbc := ""
+			if knownAfter {
+				wantAbc = "q"
+			}
+			v.Assert(v.EqStr(d.Abc, wantAbc), "IgnoreUnknown: options after the unknown one are still parsed")
 		}
 	case 2:
 		v.Assert(calls == 1, "the handler is called exactly once for the unknown option")
@@ -163,6 +174,9 @@ func H_C07_unknown(v *V) {
 				wantAbc := ""
 				if inject {
 					wantAbc = "zz"
+				}
+				if knownAfter {
+					wantAbc = "q" // the later occurrence wins
 				}
 				v.Assert(v.EqStr(d.Abc, wantAbc), "the slice returned by the handler is what is parsed next")
 				cmdLater := len(tail) > 0 && tail[0] == "c"
